@@ -444,33 +444,55 @@ class Gen:
                 parts.append({"n": enc_arr(self.rand_vals(shp, "f8"))})
         return self._emit_op("multi_matmul", parts)
 
+    EINSUM_PATTERNS = [
+        "ij->ji", "ij->i", "ij->", "ij->j", "ii->", "i->", "i,i->", "i,i->i", "ij,j->i", "ij,ij->ij", "ij,ij->", "ij,ij->i", "ij,jk->ik", "ij,kj->ik",
+        "i,j->ij", "i,i,i->i", "ij,j,j->i", "ij,ji->", "ijk->kji", "ijk,k->ij", "ijk,ijk->j",
+    ]
+
     def op_einsum(self, src=None):
-        hs2 = [h for h in self.float_tensors() if self.t[h].val.ndim == 2]
-        hs1 = [h for h in self.float_tensors() if self.t[h].val.ndim == 1]
+        """explicit-mode einsum over 1-3 operands; dimension letters are bound by src (placed at a
+        random operand slot), the remaining operands are existing tensors of the required shape -
+        including src itself, which exercises the repeated-operand path - or literal arrays"""
+        fl = [h for h in self.float_tensors() if 1 <= self.t[h].val.ndim <= 3]
+        if not fl:
+            return None
+        src = src if src is not None and src in fl else self.choice(fl)
+        shp = self.t[src].val.shape
         pats = []
-        if hs2:
-            pats += ["ij->ji", "ij->i", "ij->", "ij->j"]
-        if hs1:
-            pats += ["i,i->", "i,i->i"]
-        if hs2 and hs1:
-            pats += ["ij,j->i"]
+        for pat in self.EINSUM_PATTERNS:
+            ins = pat.split("->")[0].split(",")
+            for k, sub in enumerate(ins):
+                if len(sub) != len(shp):
+                    continue
+                bind = {}
+                ok = True
+                for c, d in zip(sub, shp):
+                    if bind.setdefault(c, d) != d:
+                        ok = False
+                if ok:
+                    pats.append((pat, k, bind))
         if not pats:
             return None
-        pat = self.choice(pats)
+        pat, k, bind = self.choice(pats)
         ins = pat.split("->")[0].split(",")
-        if len(ins) == 1:
-            return self._emit_op("einsum", [{"t": self.choice(hs2)}], {"subs": pat})
-        if pat.startswith("i,i"):
-            a = self.choice(hs1)
-            n = self.t[a].val.shape[0]
-            bs = [h for h in hs1 if self.t[h].val.shape[0] == n]
-            return self._emit_op("einsum", [{"t": a}, {"t": self.choice(bs)}], {"subs": pat})
-        a = self.choice(hs2)
-        n = self.t[a].val.shape[1]
-        bs = [h for h in hs1 if self.t[h].val.shape[0] == n]
-        if not bs:
-            return None
-        return self._emit_op("einsum", [{"t": a}, {"t": self.choice(bs)}], {"subs": pat})
+        for sub in ins:
+            for c in sub:
+                bind.setdefault(c, self.r.randint(1, 3))
+        refs = []
+        for j, sub in enumerate(ins):
+            if j == k:
+                refs.append({"t": src})
+                continue
+            need = tuple(bind[c] for c in sub)
+            cands = [{"t": h} for h in self.float_tensors() if self.t[h].val.shape == need]
+            if cands and self.coin(0.7):
+                refs.append(self.choice(cands))
+            else:
+                refs.append({"n": enc_arr(self.rand_vals(need, "f8"))})
+        p = {"subs": pat}
+        if self.coin(0.15):
+            p["optimize"] = True
+        return self._emit_op("einsum", refs, p)
 
     def op_where(self, src=None):
         hs = self.float_tensors()
